@@ -123,6 +123,19 @@ Theorem C04_commit_closure_every_prefix : forall (n : tnode) (d0 : list N),
 Proof. exact closure_every_prefix. Qed.
 Print Assumptions C04_commit_closure_every_prefix.
 
+(* the memory layer: a commit that completes uncaches exactly what it wrote, a commit that
+   fails after any prefix of its batches uncaches nothing: every node of the universe stays
+   in memory or on disk (so no later commit can mistake a lost node for a committed one).
+   Dropping nodes from memory as they are put into the batch breaks it (example below). *)
+Theorem C04_uncache_after_successful_write : forall (univ w p : list N) (s : tdb),
+  covered univ s -> covered univ (commit_ok w s) /\ covered univ (commit_failed p s).
+Proof. exact uncache_discipline. Qed.
+Print Assumptions C04_uncache_after_successful_write.
+
+Example C04_eager_uncache_loses_nodes :
+  covered [7] (mkTdb [7] []) /\ ~ covered [7] (commit_failed_eager [] [7] (mkTdb [7] [])).
+Proof. exact eager_uncache_loses_nodes. Qed.
+
 (* non-vacuity of the premises, and the order that would break it (node first) *)
 Example C04_commit_order_example :
   post t3 = [2; 3; 1] /\ pre_order t3 = [1; 2; 3] /\
